@@ -1,4 +1,4 @@
-import GB.C01.Trace
+import GB.C01.Status
 /-
   C01 — forwarded calls deliver exactly the messages and final status exchanged.
 
@@ -44,17 +44,17 @@ theorem C01_resp_unary (p : Params) (tr : List (Label M E)) (s : State M E) (h :
   have g := h.ginv.resp_u1 hu
   rwa [h.tracks.incSent] at g
 
-/-- Once the request pump has ended (client half-closed, or a failure), every message the client handed
-    over has been handed to the target: nothing is dropped at the end of the request stream. -/
+/-- Once the request pump has ended (client half-closed, or a failure) — or was never started because the
+    call failed before — every message the client handed over has been handed to the target: nothing is
+    dropped at the end of the request stream. -/
 theorem C01_req_complete (p : Params) (tr : List (Label M E)) (s : State M E) (h : Run p tr s)
-    (hcs : p.cs = true) (hx : s.i2o = .exited) : outSent tr = incReceived tr := by
+    (hcs : p.cs = true) (hx : s.i2o.gone = true) : outSent tr = incReceived tr := by
   have g := h.ginv.req
   have hl := h.ginv.lost_cs hcs
-  have hp : s.main.pre = false := by
-    cases hpre : s.main.pre with
-    | false => rfl
-    | true => have := h.sinv.pre_i hpre; rw [hx] at this; cases this
-  rw [h.tracks.incRecv, h.tracks.outSent, hl, hx, MPc.carry_of_not_pre _ hp] at g
+  have hu := h.sinv.cs_u hcs
+  have hc : s.main.carry = [] := by cases hm : s.main <;> simp_all
+  have hi : s.i2o.carry = [] := by cases hi : s.i2o <;> simp_all
+  rw [h.tracks.incRecv, h.tracks.outSent, hl, hc, hi] at g
   simpa using g.symm
 
 /-- Once the response pump has ended, every response of a server-streaming target has been handed to the
@@ -73,13 +73,13 @@ theorem C01_resp_complete (p : Params) (tr : List (Label M E)) (s : State M E) (
 theorem C01_done_delivered (p : Params) (tr : List (Label M E)) (s : State M E) (h : Run p tr s)
     (hd : isDone s = true) :
     (p.ss = true → incSent tr = outReceived tr) ∧
-    (p.cs = true → s.i2o = .exited → outSent tr = incReceived tr) := by
+    (p.cs = true → outSent tr = incReceived tr) := by
   have hg : pumpsGone s = true := by
     apply h.sinv.done_gone
     unfold isDone at hd
     cases hm : s.main <;> simp_all
   simp only [pumpsGone, Bool.and_eq_true] at hg
-  exact ⟨fun hss => C01_resp_complete p tr s h hss hg.2, fun hcs hx => C01_req_complete p tr s h hcs hx⟩
+  exact ⟨fun hss => C01_resp_complete p tr s h hss hg.2, fun hcs => C01_req_complete p tr s h hcs hg.1⟩
 
 /-- Unary response: the single response the client gets is the FIRST message the target produced; what
     is not forwarded is only a second message of a misbehaving target or a message superseded by a
@@ -112,6 +112,73 @@ theorem C01_halfclose_enabled (p : Params) (s : State M E) (hm : s.main = .loop)
     simp [step, stepCore, m1]
   obtain ⟨s2, e2, c2⟩ := h2
   exact ⟨s1, s2, e1, m1, e2, c2⟩
+
+/-! ### Final status
+
+  `hasFault tr = false`: no cancellation / deadline and no error from Incoming.Recv, Incoming.Send,
+  Outgoing.Stream or outgoing.Send anywhere in the run — the only error allowed is the target's own final
+  result, which arrives as the result of outgoing.Recv. `expectedReturn p tr` (GB/C01/Spec.lean) is the
+  target's final status read off the trace: the status error the target ended with, nil when it ended with
+  EOF after its responses, and the synthesized Unavailable errors for the two unary protocol violations. -/
+
+/-- In every run that returned with value `e` and in which no fault occurred, `e` is the target's final
+    status. -/
+theorem C01_status (p : Params) (tr : List (Label M E)) (s : State M E) (h : Run p tr s)
+    (e : Option (Err E)) (hd : s.main = .done e) (hf : hasFault tr = false) : expectedReturn p tr = some e :=
+  returned_expected p tr s h e hd hf
+
+/-- …read out for a target that ended with a status error `x` (server-streaming, or a well-behaved unary
+    target): Forward returns exactly `x` (the value itself: code, message and details travel with it). -/
+theorem C01_status_error (p : Params) (tr : List (Label M E)) (s : State M E) (h : Run p tr s)
+    (e : Option (Err E)) (hd : s.main = .done e) (hf : hasFault tr = false) (x : E)
+    (ht : targetFinal tr = some (some x)) (hk : p.ss = true ∨ (outReceived tr).length < 2) :
+    e = some (.peer x) := by
+  have := C01_status p tr s h e hd hf
+  unfold expectedReturn expect at this
+  unfold targetFinal at ht
+  rw [ht] at this
+  have hn : ¬(p.ss = false ∧ 2 ≤ (outReceived tr).length) := by
+    rcases hk with hk | hk
+    · simp [hk]
+    · omega
+  simp only [hn, if_false] at this
+  simpa using this.symm
+
+/-- …and for a server-streaming target that ended with EOF after its responses: Forward returns nil (OK). -/
+theorem C01_status_ok (p : Params) (tr : List (Label M E)) (s : State M E) (h : Run p tr s)
+    (e : Option (Err E)) (hd : s.main = .done e) (hf : hasFault tr = false) (hss : p.ss = true)
+    (ht : targetFinal tr = some none) : e = none := by
+  have := C01_status p tr s h e hd hf
+  unfold expectedReturn expect at this
+  unfold targetFinal at ht
+  rw [ht] at this
+  simp [hss] at this
+  exact this.symm
+
+/-- C01, completed call: fault-free run that returned ⇒ the returned value is the target's final status,
+    every request the client handed over was handed to the target, and every response the target produced
+    was handed to the client (for a unary-response method: all but `gDropped`, see `C01_unary_response`). -/
+theorem C01_complete (p : Params) (tr : List (Label M E)) (s : State M E) (h : Run p tr s)
+    (e : Option (Err E)) (hd : s.main = .done e) (hf : hasFault tr = false) :
+    expectedReturn p tr = some e ∧ outSent tr = incReceived tr ∧
+    (p.ss = true → incSent tr = outReceived tr) ∧ outReceived tr = incSent tr ++ s.gDropped := by
+  have hdone : isDone s = true := by simp [isDone, hd]
+  have hg : pumpsGone s = true := h.sinv.done_gone (by simp [hd])
+  simp only [pumpsGone, Bool.and_eq_true] at hg
+  have ho : s.o2i.carry = [] := by cases ho : s.o2i <;> simp_all
+  have hresp : outReceived tr = incSent tr ++ s.gDropped := by
+    have g := h.ginv.resp
+    rw [h.tracks.outRecv, h.tracks.incSent, ho] at g
+    simpa using g
+  refine ⟨C01_status p tr s h e hd hf, ?_, (C01_done_delivered p tr s h hdone).1, hresp⟩
+  cases hcs : p.cs with
+  | true => exact C01_req_complete p tr s h hcs hg.1
+  | false =>
+    have g := h.ginv.req
+    have hl := h.finv.f_lost (by rw [h.tracks.fault]; exact hf)
+    have hi := h.sinv.ncs_i hcs
+    rw [h.tracks.incRecv, h.tracks.outSent, hl, hi, hd] at g
+    simpa using g.symm
 
 /-! ### Non-vacuity: a concrete bidirectional run — 3 requests, 2 responses, status error 42 -/
 
